@@ -3,6 +3,7 @@ from __future__ import annotations
 
 import atexit
 import json
+import os
 import shutil
 import tempfile
 from collections import Counter
@@ -129,6 +130,13 @@ def _proj():
         d = tempfile.mkdtemp(prefix="c15proj-")
         atexit.register(shutil.rmtree, d, True)
         triggers.write_project(d)
+        # the same sources stored with upper-/mixed-case extensions in a directory of their own (extensions are case-insensitive)
+        (Path(d) / "cased").mkdir()
+        for n, (_lang, _rule, _line, text) in triggers.T.items():
+            stem, ext = os.path.splitext(n)
+            if ext in (".py", ".ts", ".js", ".rs"):
+                (Path(d) / "cased" / (stem + "_up" + ext.upper())).write_text(text)
+                (Path(d) / "cased" / (stem + "_mixed" + ext[:2] + ext[2:].upper())).write_text(text)
         _P["d"] = Path(d)
     return _P["d"]
 
@@ -151,6 +159,29 @@ def h_commands(ctx):
     ctx.cover("reports" if ids else "silent")
     ctx.require("command-outputs-only-its-own-rule-ids", not foreign, command=cmd, foreign=foreign)
     ctx.require("command-finds-its-catalogue-violations", bool(ids), command=cmd)
+    if fmt == "json":
+        # ... and the copies with upper-/mixed-case extensions get, file by file, the findings of the originals
+        ign.clear_ignore_parser_cache()
+        r2 = CliRunner().invoke(cli, [cmd, "--format", "json", str(d / "cased")])
+        ctx.require("run-on-cased-copies-completes", r2.exit_code in (0, 1), code=r2.exit_code)
+        if r2.exit_code in (0, 1):
+            def per_file(vs, strip):
+                out = Counter()
+                for v in vs:
+                    if v["rule_id"].startswith(("dry.", "stringly-typed.", "file-header")):
+                        continue            # cross-file findings pair files up differently; header findings quote the file name
+                    name = os.path.basename(v["file_path"])
+                    stem = os.path.splitext(name)[0]
+                    for suf in strip:
+                        if stem.endswith(suf):
+                            stem = stem[:-len(suf)]
+                    out[(stem, os.path.splitext(name)[1].lower(), v["rule_id"], v["line"])] += 1
+                return out
+            base = per_file(doc["violations"], ())
+            cased = per_file(json.loads(r2.output)["violations"], ("_up", "_mixed"))
+            want = Counter({k: 2 * c for k, c in base.items()})
+            ctx.require("upper-case-extensions-are-linted-like-lower-case-ones", cased == want, command=cmd,
+                        missing=[list(k) for k in list(want - cased)[:3]], extra=[list(k) for k in list(cased - want)[:3]])
 
 
 # other linters' settings as symbolic values: X's findings must not depend on them
